@@ -284,8 +284,32 @@ def run(F, tier, res):
     for p in gcg:
         if p not in F.fn_bodies:
             continue
-        envs = [i for i, c in F.calls(p) if any(r[0] == 'param' and 'config_from_env_var' in r[2] for a in c['args'][:1] for r in F.trace(p, a))]
-        files = [i for i, c in F.calls(p) if any(r[0] == 'param' and r[2] and r[2][-1] == 'config' for a in c['args'][:1] for r in F.trace(p, a))]
+        def reads_env(fn, depth=0):
+            """fn (or a local method it calls) reads the parsed GIT_CONFIG_PARAMETERS table"""
+            if fn not in F.fn_bodies or depth > 2:
+                return False
+            for _, c_ in F.calls(fn):
+                if any(r[0] == 'param' and 'config_from_env_var' in r[2] for a in c_['args'][:1] for r in F.trace(fn, a)):
+                    return True
+                q_ = callee_of(c_) if callee_of(c_) in F.fn_bodies else (c_.get('resolved') or '')
+                if q_ and q_ != fn and 'git_config' in q_ and reads_env(q_, depth + 1):
+                    return True
+            return False
+
+        def reads_file(c_, fn):
+            return any(r[0] == 'param' and r[2] and r[2][-1] == 'config' for a in c_['args'][:1] for r in F.trace(fn, a))
+        envs = [i for i, c in F.calls(p) if any(r[0] == 'param' and 'config_from_env_var' in r[2] for a in c['args'][:1] for r in F.trace(p, a))
+                or reads_env(callee_of(c) if callee_of(c) in F.fn_bodies else (c.get('resolved') or ''))]
+        files = [i for i, c in F.calls(p) if reads_file(c, p)]
+        # file reads inside closures handed to a combinator (`.or_else(|| git_config.config.get_string(key).ok())`) count at the combinator
+        for i, c in F.calls(p):
+            for a in c['args']:
+                for r in F.trace(p, a):
+                    if r[0] == 'agg' and r[1][0] == 'closure' and r[1][1] in F.fn_bodies:
+                        if any(any(rr[0] == 'param' and rr[2] and rr[2][-1] == 'config' for a2 in c2['args'][:1] for rr in F.trace(r[1][1], a2, deep=True)) or
+                               any(rr[0] == 'param' and rr[2] and 'config' == rr[2][-1] for a2 in c2['args'][:1] for rr in F.trace(r[1][1], a2))
+                               for _, c2 in F.calls(r[1][1])):
+                            files.append(i)
         if not files:
             continue
         ng += 1
